@@ -397,6 +397,8 @@ class Interp:
                 val = self.eval(idx, frame)
                 if isinstance(val, AVal):
                     raise Unsupported("vector subscript")
+                if val is POISON:
+                    raise PoisonRead("subscript depends on undefined value")
                 if isinstance(val, bool) or not isinstance(val, int):
                     raise InterpError(f"non-integer subscript {val!r}")
                 if not lb <= val <= ub:
@@ -472,6 +474,8 @@ class Interp:
                 val = self.eval(idx, frame)
                 if isinstance(val, AVal):
                     raise Unsupported("vector subscript")
+                if val is POISON:
+                    raise PoisonRead("subscript depends on undefined value")
                 if isinstance(val, bool) or not isinstance(val, int):
                     raise InterpError(f"non-integer subscript {val!r}")
                 vals.append(val)
@@ -841,25 +845,35 @@ class Interp:
         if "dim" in args:
             raise Unsupported("COUNT with dim")
         val = self.eval(args["mask"], frame)
+        if any(v is POISON for v in val.data):
+            return POISON
         return sum(1 for v in val.data if v)
 
     def i_any(self, node, frame):
         args = self._split(node, ["mask", "dim"])
         if "dim" in args:
             raise Unsupported("ANY with dim")
-        return any(self.eval(args["mask"], frame).data)
+        data = self.eval(args["mask"], frame).data
+        if any(v is POISON for v in data):
+            return POISON
+        return any(data)
 
     def i_all(self, node, frame):
         args = self._split(node, ["mask", "dim"])
         if "dim" in args:
             raise Unsupported("ALL with dim")
-        return all(self.eval(args["mask"], frame).data)
+        data = self.eval(args["mask"], frame).data
+        if any(v is POISON for v in data):
+            return POISON
+        return all(data)
 
     def i_dot_product(self, node, frame):
         lhs, rhs = self._argvals(node, frame)
         if not isinstance(lhs, AVal) or not isinstance(rhs, AVal) or \
                 lhs.shape != rhs.shape or len(lhs.shape) != 1:
             raise InterpError("DOT_PRODUCT arguments not conformable")
+        if any(v is POISON for v in lhs.data + rhs.data):
+            return POISON
         tot = self._zero(lhs)
         for one, two in zip(lhs.data, rhs.data):
             tot = self.num(tot + self.num(one * two))
@@ -869,6 +883,8 @@ class Interp:
         lhs, rhs = self._argvals(node, frame)
         if not isinstance(lhs, AVal) or not isinstance(rhs, AVal):
             raise InterpError("MATMUL of scalars")
+        if any(v is POISON for v in lhs.data + rhs.data):
+            raise Unsupported("undefined value in MATMUL")
         if len(lhs.shape) == 2 and len(rhs.shape) == 1:
             nrow, ncol = lhs.shape
             if rhs.shape[0] != ncol:
